@@ -15,6 +15,18 @@
 (*   Pair a b ...   one pair (used to pin-point a rejected Row)                *)
 (*   Map  puts (ids put as keys, in order, value = id), gets[b] = value found  *)
 (*        under key b or -1                                                    *)
+(*   LzNew of, ep, ra   a brand new copy of instance `of' (a lazily            *)
+(*        materialised record / sequence, or a container holding one; nothing  *)
+(*        read or unpacked yet) and an empty container; ra = abstract value of *)
+(*        the lazy value inside                                                *)
+(*   Lz   of, op, b, k, r, h   one read-only operation on that copy:           *)
+(*        get / has (member k of the lazy value; r: found), str (display it),  *)
+(*        hash (h), eq / cmp (against instance b; r), put (store a member      *)
+(*        under the copy as key), look (r: member found under key b),          *)
+(*        look0 (r: member found under the very same key)                      *)
+(*        The lazy value is modelled by ValuesLazy (row / ob / userow); its    *)
+(*        value must stay ra, and every answer must be the one the VALUE       *)
+(*        gives, whatever has been materialised so far.                        *)
 (* Required (property C28, with Cmp / Eq of Values.tla as the reference):      *)
 (*   sign(Compare) = Cmp, operators agree with it, Equal <=> Eq,               *)
 (*   Eq => same Hash, member found <=> keys Eq, lookup returns the value of    *)
@@ -29,15 +41,17 @@
 (*        through a conversion that rounds to 16 digits                        *)
 (*   VERIF_RELAX_OBJ_HASH_ORDER  hash of an object with 2..4 named members     *)
 (*        depends on their insertion order                                     *)
-EXTENDS TraceBase, Values
+EXTENDS TraceBase, ValuesLazy
 
 VARIABLES l, base, nv,
           clsv, hv,     \* clsv[k], hv[k]: class index and hash of instance k (from the Val events)
           crep,         \* crep[c]: first instance of class c (a class = one abstract value)
-          ctri, etri    \* ctri[c][d], etri[c][d] for d < c: Cmp / Eq of the class representatives,
+          ctri, etri,   \* ctri[c][d], etri[c][d] for d < c: Cmp / Eq of the class representatives,
                         \* evaluated once when class c appears
+          lz            \* current lazy episode: [of, x (ValuesLazy record), ra, put], of = 0: none
 
-tvars == <<l, base, nv, clsv, hv, crep, ctri, etri>>
+tvars == <<l, base, nv, clsv, hv, crep, ctri, etri, lz>>
+NoLz == [of |-> 0, x |-> LazyNew(<<>>), ra |-> <<>>, put |-> FALSE]
 
 Ev == Log[l]
 
@@ -50,7 +64,7 @@ Used(r) == TLCSet(r, TLCGet(r) + 1)
 
 TraceInit == HWInit /\ TLCSet(2, 0) /\ TLCSet(3, 0) /\ TLCSet(4, 0)
              /\ l = 1 /\ base = 0 /\ nv = 0 /\ clsv = <<>> /\ hv = <<>>
-             /\ crep = <<>> /\ ctri = <<>> /\ etri = <<>>
+             /\ crep = <<>> /\ ctri = <<>> /\ etri = <<>> /\ lz = NoLz
 
 IsEvent(e) == l <= NLog /\ Ev.e = e /\ l' = l + 1
 
@@ -60,7 +74,7 @@ A(k) == InstEv(k).a
 
 TrReset == /\ IsEvent("Reset")
            /\ base' = l /\ nv' = 0 /\ clsv' = <<>> /\ hv' = <<>>
-           /\ crep' = <<>> /\ ctri' = <<>> /\ etri' = <<>>
+           /\ crep' = <<>> /\ ctri' = <<>> /\ etri' = <<>> /\ lz' = NoLz
 
 TrVal == /\ IsEvent("Val")
          /\ l = base + nv + 1              \* contiguous
@@ -74,7 +88,7 @@ TrVal == /\ IsEvent("Val")
                  /\ ctri' = Append(ctri, [d \in 1..C |-> Cmp(Ev.a, A(crep[d]))])
                  /\ etri' = Append(etri, [d \in 1..C |-> Eq(Ev.a, A(crep[d]))])
          /\ nv' = nv + 1 /\ clsv' = Append(clsv, Ev.cls) /\ hv' = Append(hv, Ev.h)
-         /\ UNCHANGED base
+         /\ UNCHANGED <<base, lz>>
 
 \* Cmp / Eq of the abstract values of classes c, d (antisymmetry / symmetry of the
 \* reference operators is established by MC_Values)
@@ -158,13 +172,13 @@ TrRow == /\ IsEvent("Row")
                    /\ \A b \in 1..nv :
                         PairOK(a, b, expC[b], expE[b] = 1, Ev.cmp[b], Ev.ops[b], Ev.eq[b], Ev.is[b],
                                Ev.found[b], Ev.rfound[b], Ev.has[b])) = TRUE
-         /\ UNCHANGED <<base, nv, clsv, hv, crep, ctri, etri>>
+         /\ UNCHANGED <<base, nv, clsv, hv, crep, ctri, etri, lz>>
 
 TrPair == /\ IsEvent("Pair")
           /\ Ev.a \in 1..nv /\ Ev.b \in 1..nv
           /\ PairOK(Ev.a, Ev.b, CmpC(clsv[Ev.a], clsv[Ev.b]), EqC(clsv[Ev.a], clsv[Ev.b]),
                     Ev.cmp, Ev.ops, Ev.eq, Ev.is, Ev.found, Ev.rfound, Ev.has) = TRUE
-          /\ UNCHANGED <<base, nv, clsv, hv, crep, ctri, etri>>
+          /\ UNCHANGED <<base, nv, clsv, hv, crep, ctri, etri, lz>>
 
 \* index of the last key in puts that is Eq to instance b, or 0
 LastEq(puts, b) ==
@@ -182,9 +196,67 @@ TrMap == /\ IsEvent("Map")
                LET i == LastEq(Ev.puts, b)
                IN \/ Ev.gets[b] = (IF i = 0 THEN -1 ELSE Ev.puts[i])
                   \/ MapAffected(Ev.puts, b)) = TRUE
-         /\ UNCHANGED <<base, nv, clsv, hv, crep, ctri, etri>>
+         /\ UNCHANGED <<base, nv, clsv, hv, crep, ctri, etri, lz>>
 
-TraceNext == TrReset \/ TrVal \/ TrRow \/ TrPair \/ TrMap
+----------------------------------------------------------------------------
+(* lazy episodes *)
+TrLzNew == /\ IsEvent("LzNew")
+           /\ Ev.of \in 1..nv
+           /\ Ev.ra.t = "obj"
+           /\ lz' = [of |-> Ev.of, x |-> LazyNew(Ev.ra.n), ra |-> Ev.ra.n, put |-> FALSE]
+           /\ UNCHANGED <<base, nv, clsv, hv, crep, ctri, etri>>
+
+\* a recorded finding may excuse the pair (same shapes as in PairOK)
+LzExcused(a, b) ==
+    \/ RelaxHashIntDnum /\ HashIntDnumPair(a, b) /\ Used(2)
+    \/ RelaxInt17 /\ Int17Pair(a, b) /\ Used(3)
+    \/ RelaxObjHashOrder /\ ObjHashOrderPair(a, b) /\ Used(4)
+
+IsMember(x, k) == InOb(x, k) \/ (x.userow /\ InRow(x, k))
+B01(p) == IF p THEN 1 ELSE 0
+
+TrLz == /\ IsEvent("Lz")
+        /\ lz.of # 0 /\ Ev.of = lz.of
+        /\ Ev.b \in 0..nv
+        /\ LET a == lz.of
+               b == Ev.b
+               ca == clsv[a]
+           IN CASE Ev.op = "get" ->      \* reading a field caches it; it is found iff it is a member
+                     /\ Ev.r = B01(IsMember(lz.x, Ev.k))
+                     /\ lz' = [lz EXCEPT !.x = LazyGet(@, Ev.k)]
+                [] Ev.op = "has" ->
+                     /\ Ev.r = B01(IsMember(lz.x, Ev.k))
+                     /\ UNCHANGED lz
+                [] Ev.op = "str" ->      \* display unpacks
+                     /\ lz' = [lz EXCEPT !.x = LazyUnpack(@)]
+                [] Ev.op = "hash" ->     \* equal values hash equally: the hash of the shared instance
+                     /\ (Ev.h = hv[a] \/ LzExcused(a, a))
+                     /\ lz' = [lz EXCEPT !.x = LazyHash2(@, FALSE)[2]]
+                [] Ev.op = "eq" ->
+                     /\ b > 0
+                     /\ (Ev.r = B01(EqC(ca, clsv[b])) \/ LzExcused(a, b))
+                     /\ lz' = [lz EXCEPT !.x = LazyUnpack(@)]
+                [] Ev.op = "cmp" ->
+                     /\ b > 0
+                     /\ (Ev.r = CmpC(ca, clsv[b]) \/ LzExcused(a, b))
+                     /\ lz' = [lz EXCEPT !.x = LazyUnpack(@)]
+                [] Ev.op = "put" ->      \* the container hashes the key
+                     /\ Ev.r = 0
+                     /\ lz' = [lz EXCEPT !.put = TRUE, !.x = LazyHash2(@, FALSE)[2]]
+                [] Ev.op = "look" ->     \* found by exactly the keys equal to the one used to store it
+                     /\ b > 0
+                     /\ (Ev.r = B01(lz.put /\ EqC(ca, clsv[b])) \/ LzExcused(a, b))
+                     /\ UNCHANGED lz
+                [] Ev.op = "look0" ->    \* the very same key
+                     /\ (Ev.r = B01(lz.put) \/ LzExcused(a, a))
+                     /\ lz' = [lz EXCEPT !.x = LazyHash2(@, FALSE)[2]]
+                [] OTHER -> FALSE
+        /\ UNCHANGED <<base, nv, clsv, hv, crep, ctri, etri>>
+
+\* no read-only operation changes the value of the lazy record (ValuesLazy)
+LzAbsStable == lz.of # 0 => Eq(AbsOf(lz.x), Obj(<<>>, lz.ra))
+
+TraceNext == TrReset \/ TrVal \/ TrRow \/ TrPair \/ TrMap \/ TrLzNew \/ TrLz
 
 TraceSpec == TraceInit /\ [][TraceNext]_tvars
 
